@@ -87,6 +87,88 @@ def _s(v, bits=64):
     return v
 
 
+class With:
+    """transfer result that also adds path knowledge: `atoms` over SSA values, and `bind` = {ref: value}
+    meaning "this instruction's result equals value on this path" (e.g. the value a load must return
+    because the last store to that location on the path is known)"""
+    def __init__(self, auto, atoms=(), bind=None):
+        self.auto = auto
+        self.atoms = tuple(atoms)
+        self.bind = dict(bind or {})
+
+
+def with_memory(fn, transfer, track_loc):
+    """wrap a transfer function with a small store/load model for the locations `track_loc(addr)` accepts.
+    automaton state becomes (inner state, memory map); a load of a location whose content is known on the
+    path is bound to that content.  May-alias: a store kills entries with the same field path under a
+    different root unless the path knows the roots differ.  Calls to library functions that were not
+    inlined, memcpy/memset and inline asm forget everything; the allocator, abort and user callbacks
+    are assumed not to touch library-private state (DESIGN.md 2.3)."""
+    from .ir import resolve_addr
+
+    def key_of(a):
+        r = a.root if not isinstance(a.root, dict) else None
+        if r is None:
+            return None
+        return (r, a.steps)
+
+    def t(ins, auto, ps):
+        inner, mem = auto
+        bind = {}
+        r = ins.ref
+        if any(v == r or k[0] == r for k, v in mem):
+            mem = frozenset((k, v) for k, v in mem if v != r and k[0] != r)
+        if ins.op == 'load':
+            a = resolve_addr(fn, ins.o[0])
+            k = key_of(a) if track_loc(a) else None
+            if k is not None:
+                k = (ps.lookup(k[0]), k[1])
+                d = dict(mem)
+                if k in d:
+                    bind[ins.ref] = d[k]
+                else:
+                    d[k] = ins.ref
+                    mem = frozenset(d.items())
+        elif ins.op in ('store', 'atomicrmw', 'cmpxchg'):
+            a = resolve_addr(fn, ins.o[1] if ins.op == 'store' else ins.o[0])
+            k = key_of(a)
+            d = dict(mem)
+            root = ps.lookup(a.root) if isinstance(a.root, str) else None
+            for kk in list(d):
+                if kk[1] == a.steps and kk[0] != root:
+                    if root is None or ps.knows(('ne', kk[0], root)) is not True:
+                        del d[kk]
+            if k is not None and track_loc(a) and ins.op == 'store':
+                d[(root, k[1])] = ps.lookup(_k(ins.o[0]))
+            elif k is not None and (root, k[1]) in d:
+                del d[(root, k[1])]
+            mem = frozenset(d.items())
+        elif ins.op == 'call':
+            cal = ins.callee or ''
+            forget = False
+            if cal.startswith(('llvm.memcpy', 'llvm.memmove', 'llvm.memset')):
+                forget = True
+            elif ins.callee and not ins.is_intrinsic():
+                g = fn.module.fn(ins.callee)
+                if g is not None and not g.decl:
+                    forget = True
+            if forget:
+                mem = frozenset()
+        out = transfer(ins, inner, ps)
+        if out is None:
+            return None
+        res = []
+        for o in _many(out):
+            if isinstance(o, With):
+                b = dict(bind)
+                b.update(o.bind)
+                res.append(With((o.auto, mem), o.atoms, b))
+            else:
+                res.append(With((o, mem), (), bind) if bind else (o, mem))
+        return res
+    return t
+
+
 class Result:
     def __init__(self):
         self.exits = []        # (ret instruction, PathState)
@@ -136,7 +218,25 @@ def run(fn, init_auto, transfer, track=None, limit=60000, start=None, init_known
                 if out is None:
                     continue
                 for a in _many(out):
-                    nxt.append(PathState(a, s.env, s.known))
+                    if isinstance(a, With):
+                        kn = set(s.known)
+                        feasible = True
+                        for at in a.atoms:
+                            k = s.knows(at)
+                            if k is False:
+                                feasible = False
+                            elif k is None:
+                                kn.add((at[0], s.lookup(at[1]), s.lookup(at[2])))
+                        env = s.env
+                        if a.bind:
+                            e = dict(env)
+                            for br, bv in a.bind.items():
+                                e[br] = s.lookup(bv)
+                            env = frozenset(e.items())
+                        if feasible:
+                            nxt.append(PathState(a.auto, env, frozenset(kn)))
+                    else:
+                        nxt.append(PathState(a, s.env, s.known))
             cur = _dedupe(nxt)
             if not cur:
                 ended = True
